@@ -392,6 +392,9 @@ func doMaster(c *checks.Check, seed int64) int {
 	if c.Assumptions == nil {
 		c.Assumptions = []string{}
 	}
+	if checks.ExportDegraded() {
+		c.Assumptions = append(c.Assumptions, "the private-state export overlay did not compile against this /repo tree (its private recorder representation changed): the reflective fallback was used; private lookups (C11) and the retained-bytes oracle (C20) are unavailable in this mode")
+	}
 	ev := &fw.Evidence{PropertyID: c.ID, Tier: *tier, Seed: seed, Level: c.Level, Coverage: cov, Assumptions: c.Assumptions,
 		WallS: time.Since(start).Seconds(), Violations: nUnknown}
 	os.MkdirAll(filepath.Join(*verifDir, "evidence"), 0o755)
